@@ -89,7 +89,7 @@ theorem distance_reported (Lx Ly Lz : Nat) (hx : 1 ≤ Lx) (hy : 1 ≤ Ly) (hz :
 theorem deformation_defined (Lx Ly Lz : Nat) (axis : String)
     (ha : axis = "x" ∨ axis = "y" ∨ axis = "z") (q : Coord)
     (hq : q ∈ (lattice Lx Ly Lz).qubits) :
-    ∃ m, getDeformation Lx Ly Lz "XZZX" axis q = some m := by
+    ∃ m, getDeformation Lx Ly Lz "XZZX" (some axis) q = some m := by
   obtain ⟨x, y, z, rfl⟩ := mem_qubits_shape Lx Ly Lz q hq
   rw [C01RotatedPlanar3DCode.deformation_rule, C01RotatedPlanar3DCode.qubit_axis_rule Lx Ly Lz x y z hq]
   have h1 : ¬ (axis ≠ "x" ∧ axis ≠ "y" ∧ axis ≠ "z") := by
@@ -103,7 +103,7 @@ theorem deformation_defined (Lx Ly Lz : Nat) (axis : String)
     rows, they form a valid `[[n, 1]]` code, `code.d` reports `min Lx (Ly·Lz)`, and that is the true
     distance of the deformed code -/
 theorem distance_deformed (Lx Ly Lz : Nat) (hx : 1 ≤ Lx) (hy : 1 ≤ Ly) (hz : 1 ≤ Lz)
-    (name axis : String) (D : Coord → PauliMap)
+    (name : String) (axis : Option String) (D : Coord → PauliMap)
     (hD : ∀ q ∈ (lattice Lx Ly Lz).qubits, getDeformation Lx Ly Lz name axis q = some (D q)) :
     stabilizerMatrix ((lattice Lx Ly Lz).toCodeData.deform D) =
         some ((lattice Lx Ly Lz).rowsH.map (deformBsf ((lattice Lx Ly Lz).qubits.map D))) ∧
@@ -129,7 +129,7 @@ theorem distance_deformed (Lx Ly Lz : Nat) (hx : 1 ≤ Lx) (hy : 1 ≤ Ly) (hz :
 
 /-- the relabelling `get_deformation(·, name, axis)` as a function of the location (identity
     where it raises — nowhere on the qubits for the offered name and axes) -/
-def deformationOf (Lx Ly Lz : Nat) (name axis : String) (q : Coord) : PauliMap :=
+def deformationOf (Lx Ly Lz : Nat) (name : String) (axis : Option String) (q : Coord) : PauliMap :=
   (getDeformation Lx Ly Lz name axis q).getD PauliMap.id
 
 /-- the XZZX-deformed code along every axis has distance `min Lx (Ly·Lz)` — every size -/
@@ -137,8 +137,8 @@ theorem distance_deformed_offered (Lx Ly Lz : Nat) (hx : 1 ≤ Lx) (hy : 1 ≤ L
     (axis : String) (ha : axis = "x" ∨ axis = "y" ∨ axis = "z") :
     IsDistance (nq Lx Ly Lz)
       ((lattice Lx Ly Lz).rowsH.map (deformBsf ((lattice Lx Ly Lz).qubits.map
-        (deformationOf Lx Ly Lz "XZZX" axis)))) (min Lx (Ly * Lz)) :=
-  (distance_deformed Lx Ly Lz hx hy hz "XZZX" axis (deformationOf Lx Ly Lz "XZZX" axis)
+        (deformationOf Lx Ly Lz "XZZX" (some axis))))) (min Lx (Ly * Lz)) :=
+  (distance_deformed Lx Ly Lz hx hy hz "XZZX" (some axis) (deformationOf Lx Ly Lz "XZZX" (some axis))
     (fun q hq => by
       obtain ⟨m, hm⟩ := deformation_defined Lx Ly Lz axis ha q hq
       unfold deformationOf
@@ -164,8 +164,10 @@ example : (lattice 2 3 4).rowsX.map pauliWeight = [2] ∧
   weights_listed 2 3 4 (by decide) (by decide) (by decide)
 /-- the XZZX code on the `3 × 4 × 5` lattice along 'z' has distance 3 -/
 example : IsDistance (nq 3 4 5) ((lattice 3 4 5).rowsH.map
-    (deformBsf ((lattice 3 4 5).qubits.map (deformationOf 3 4 5 "XZZX" "z")))) 3 :=
+    (deformBsf ((lattice 3 4 5).qubits.map (deformationOf 3 4 5 "XZZX" (some "z"))))) 3 :=
   distance_deformed_offered 3 4 5 (by decide) (by decide) (by decide) "z" (by decide)
-example : deformationOf 2 2 2 "XZZX" "z" [2, 0, 2] = PauliMap.swapXZ := by decide +kernel
+example : deformationOf 2 2 2 "XZZX" (some "z") [2, 0, 2] = PauliMap.swapXZ := by decide +kernel
+/-- `code.deform('XZZX')` without an axis is the deformation along 'z' -/
+example : deformationOf 2 2 2 "XZZX" none = deformationOf 2 2 2 "XZZX" (some "z") := rfl
 
 end Panqec.C17RotatedPlanar3DCode
